@@ -3,6 +3,7 @@
 package main
 
 import (
+	"bytes"
 	"encoding/hex"
 	"fmt"
 	"math"
@@ -150,6 +151,65 @@ var tinyPNG = func() []byte {
 	return b
 }()
 
+// ---- multi-byte strings sized around the truncation defaults (string_truncate 50, array_truncate 50)
+//
+// byte length above a limit while the rune count is below it, with 2-, 3- and 4-byte code points,
+// at the limit and one off, plus invalid UTF-8; the same contents as DECODE values (a CBOR document
+// built here: text strings, a byte string, arrays of 49/50/51 elements, a map).
+
+func rep(s string, n int) string { return strings.Repeat(s, n) }
+
+var truncStrings = []string{
+	rep("\u00e5", 30),     // 60 bytes, 30 runes
+	rep("\u20ac", 17),     // 51 bytes, 17 runes
+	rep("\U0001F600", 13), // 52 bytes, 13 runes
+	rep("\u00e5", 49), rep("\u00e5", 50), rep("\u00e5", 51),
+	rep("a", 49) + "\u00e5", rep("a", 50), rep("a", 51),
+	rep("\xff", 51), "a" + rep("\u20ac", 16) + "\xe2\x82", // invalid UTF-8
+}
+
+func cborHead(major byte, n int) []byte {
+	switch {
+	case n < 24:
+		return []byte{major<<5 | byte(n)}
+	case n < 256:
+		return []byte{major<<5 | 24, byte(n)}
+	default:
+		return []byte{major<<5 | 25, byte(n >> 8), byte(n)}
+	}
+}
+
+func cborText(s string) []byte  { return append(cborHead(3, len(s)), s...) }
+func cborBytes(b []byte) []byte { return append(cborHead(2, len(b)), b...) }
+func cborArray(items ...[]byte) []byte {
+	out := cborHead(4, len(items))
+	for _, it := range items {
+		out = append(out, it...)
+	}
+	return out
+}
+func cborInts(n int) [][]byte {
+	out := make([][]byte, n)
+	for i := range out {
+		out[i] = cborHead(0, i%20)
+	}
+	return out
+}
+
+// cborDoc: [ text strings…, bytes(51), [49 ints], [50 ints], [51 ints], {"\u00e5"x30: "\u20ac"x17} ]
+var cborDoc = func() []byte {
+	var items [][]byte
+	for _, s := range truncStrings {
+		items = append(items, cborText(s))
+	}
+	items = append(items, cborBytes(bytes.Repeat([]byte{0xc3}, 51)))
+	items = append(items, cborArray(cborInts(49)...), cborArray(cborInts(50)...), cborArray(cborInts(51)...))
+	m := append(cborHead(5, 1), cborText(truncStrings[0])...)
+	m = append(m, cborText(truncStrings[1])...)
+	items = append(items, m)
+	return cborArray(items...)
+}()
+
 type pval struct {
 	tok  string
 	v    any
@@ -180,7 +240,7 @@ func plainPool() []any {
 		math.MaxInt32, math.MaxInt32 + 1, math.MaxInt64, math.MinInt64,
 		bigOf("9223372036854775808"), bigOf("18446744073709551616"), bigOf("-18446744073709551616"),
 		0.5, -1.5, 1e11, 1e308, -1e308, math.NaN(), math.Inf(1), math.Inf(-1),
-		"", "abc", "10", "png", "test.png", ".", "stdin", "\xff\xfe\x00", strings.Repeat("a", 1<<20),
+		"", "abc", "10", "png", "test.png", ".", "stdin", truncStrings[0], "\xff\xfe\x00", strings.Repeat("a", 1<<20),
 		[]any{}, []any{1, "a", nil}, []any{[]any{[]any{}}}, []any{255, 256, -1, 0.5},
 		obj(), obj("a", []any{[]any{1}}), obj("a", obj("b", obj("c", nil))), obj("", "x", "@", "y"),
 		// option objects with negative / huge / mistyped members
@@ -210,6 +270,7 @@ var nonCore = map[string]bool{
 	"O(encoding=s:737464;name=s:6d6435;prompt=s:3e20;timeout=n:-1)": true,
 	"A(n:255;n:256;n:-1;f:1p-1)": true, "O(a=O(b=O(c=null)))": true,
 	"O(attribute_prefix=n:1;indent=n:-3)": true, "O(=s:78;@=s:79)": true,
+	"s:c3a5c3a5c3a5c3a5c3a5c3a5c3a5c3a5c3a5c3a5c3a5c3a5c3a5c3a5c3a5c3a5c3a5c3a5c3a5c3a5c3a5c3a5c3a5c3a5c3a5c3a5c3a5c3a5c3a5c3a5": true,
 	"O(attribute_prefix=s:-;comma=s:-;encoding=s:-;name=s:-;prompt=s:-)": true, "O(indent=s:78)": true, "O(indent=f:nan)": true,
 	"O(keep_range=s:796573;pad_to_units=n:-1;unit=n:8)": true,
 	"O(comma=s:-;comment=s:0a;encoding=n:-1;force=null;name=O();remain_group=n:0)": true,
@@ -252,6 +313,28 @@ func buildPool(ev *evaluator) poolT {
 			under = tokOf(jv.JQValueToGoJQ())
 		}
 		p.vals = append(p.vals, pval{tok: "dv:" + names[i] + "=" + under, v: dv, core: names[i] != "png_chunks" && names[i] != "png_type"})
+	}
+	// decode values with multi-byte strings around the truncation limits
+	cvs := ev.evalValues(string(cborDoc), `cbor | ., .elements[0].value, .elements[11].value, .elements[14]`)
+	if len(cvs) != 4 {
+		panic(fmt.Sprintf("cbor decode value pool: got %d values", len(cvs)))
+	}
+	cnames := []string{"cbor", "cbor_str", "cbor_raw", "cbor_arr51"}
+	for i, dv := range cvs {
+		jv, ok := dv.(gojq.JQValue)
+		if !ok {
+			panic(fmt.Sprintf("cbor decode value pool: %s is %T", cnames[i], dv))
+		}
+		var under string
+		switch jv.JQValueType() {
+		case gojq.JQTypeObject:
+			under = "O()"
+		case gojq.JQTypeArray:
+			under = "A()"
+		default:
+			under = tokOf(jv.JQValueToGoJQ())
+		}
+		p.vals = append(p.vals, pval{tok: "dv:" + cnames[i] + "=" + under, v: dv, core: false})
 	}
 	return p
 }
